@@ -15,6 +15,8 @@ CHECKS.update({
          "Each Mixin call (primary + 0..3 mixins, fresh objects) is compared with a reference model on generic JSON and the number of returned entries with the modelled collisions; exhaustive over 2^6x2^6 presence patterns, systematic over collision patterns per section, sampled beyond.", "7/C17"),
  "C18": ("mixin", "exploration", "runtime monitor: direct predicates on the operation ids observed before/after every Mixin call (uniqueness, renamed-only-if-collided, id-less stays id-less)",
          "Operation ids of every merged document are checked against the stated rules under the stated precondition (re-verified per case); collisions placed under each of the seven methods, primary-vs-mixin and mixin-vs-mixin, with 0..4 id-less operations, plus random sets.", "7/C18"),
+ "C20": ("schema", "exploration", "runtime monitor: coherence predicates + $ref-transparency comparison + reference classifier on every observed Schema() result; recursion-depth hook budget (H3) and process-level fatal attribution for termination",
+         "Every Schema() call over the systematic grammar (depth<=2, each also through one and two $refs, inside a root with self-containing arrays/maps and mutual recursion), random schemas and fixture positions is checked for flag coherence, $ref transparency and agreement with a reference classifier of the documented rules; non-termination is witnessed deterministically by a depth budget.", "7/C20"),
 })
 PENDING = {}
 
